@@ -3,6 +3,7 @@
    Strings are byte strings ([is_bytes]: every element below 256). *)
 From Coq Require Import List NArith Bool.
 From XV Require Import Lib.Sx Model.Base64 Model.Sasl Model.SaslReply Proofs.Base64P Proofs.SaslP.
+From XV Require Model.Jid Model.ClientConfig Proofs.ClientConfigP.
 From XV Require Model.Session Model.SessionSpec Proofs.SessionSpecP Proofs.SessionEvP Proofs.SaslSessionP Model.Parser Gen.Generated.
 Import ListNotations.
 Open Scope N_scope.
@@ -282,3 +283,80 @@ Print Assumptions C14_connect_not_success_clear.
 Print Assumptions C14_connect_not_success_tls.
 Print Assumptions C14_after_auth_only_on_success.
 Print Assumptions C14_connect_ok_needs_success.
+
+(* ---- from the CONFIGURED JID STRING to the payload (Model/ClientConfig.v: NewClient's
+   stanza.NewJid, parsedJid.Node handed to authSASL, parsedJid.Resource to <bind/>, the domain
+   to the stream header).  jid is Go's reading of the configured string as units
+   (Model/Jid.v), [bytes_of jid] its bytes: the correspondence check compares them with the
+   string's own bytes on every case. ---- *)
+
+(* Whatever JID string is configured: if NewClient accepts it, the payload is base64 of
+   NUL ++ (the BYTES of the string before its first '@' - nothing when it has none) ++ NUL ++
+   secret.  Nothing is trimmed, case-folded, normalised, unescaped or re-encoded on the way
+   NewJid -> parsedJid.Node -> authSASL -> authPlain. *)
+Theorem C14_config_payload_exact : forall (jid dom secret pl : str),
+  ClientConfig.units_ok jid = true -> is_bytes secret = true ->
+  ClientConfig.config_plain_payload jid dom secret = Some pl ->
+  pl = b64_encode (0 :: ClientConfig.local_bytes (ClientConfig.bytes_of jid) ++ 0 :: secret) /\
+  b64_decode pl = Some (0 :: ClientConfig.local_bytes (ClientConfig.bytes_of jid) ++ 0 :: secret).
+Proof. exact ClientConfigP.config_payload_exact. Qed.
+
+(* [local_bytes] is what it says: the configured bytes are local ++ "@" ++ rest with no '@'
+   in local, or they hold no '@' at all and the local part is empty. *)
+Theorem C14_config_local_is_prefix : forall b : str,
+  (exists rest, b = ClientConfig.local_bytes b ++ Jid.c_at :: rest /\
+                ~ In Jid.c_at (ClientConfig.local_bytes b)) \/
+  (~ In Jid.c_at b /\ ClientConfig.local_bytes b = []).
+Proof. exact ClientConfigP.local_bytes_prefix. Qed.
+
+(* All three parts the negotiation uses are pieces of the configured bytes: local part,
+   resource asked for in <bind/> (after the first '/' that follows the first '@'; may itself
+   contain '@' and '/'), and the domain of the stream header unless one is configured. *)
+Theorem C14_config_parts : forall (jid dom secret : str) (p : ClientConfig.parts),
+  ClientConfig.units_ok jid = true -> ClientConfig.new_client jid dom secret = Some p ->
+  ClientConfig.p_local p = ClientConfig.local_bytes (ClientConfig.bytes_of jid) /\
+  ClientConfig.p_resource p = ClientConfig.resource_bytes (ClientConfig.bytes_of jid) /\
+  ClientConfig.p_domain p =
+    (if Jid.is_empty dom then ClientConfig.domain_bytes (ClientConfig.bytes_of jid) else dom).
+Proof. exact ClientConfigP.config_parts. Qed.
+
+(* A JID NewJid refuses, or an empty secret: no client, hence no payload; every other
+   configuration yields a client. *)
+Theorem C14_config_refused_no_payload : forall jid dom secret : str,
+  Jid.new_jid jid = Jid.Err \/ secret = [] ->
+  ClientConfig.new_client jid dom secret = None /\
+  ClientConfig.config_plain_payload jid dom secret = None.
+Proof. exact ClientConfigP.config_refused. Qed.
+
+Theorem C14_config_accepted : forall (jid dom secret : str) (j : Jid.jid),
+  Jid.new_jid jid = Jid.Ok j -> secret <> [] ->
+  exists p, ClientConfig.new_client jid dom secret = Some p.
+Proof. exact ClientConfigP.config_accepted. Qed.
+
+(* the bridge: cutting the BYTES at an ASCII byte cuts where the units are cut *)
+Theorem C14_config_split_commutes : forall (c : N) (s : str),
+  c < 128 -> ClientConfig.units_ok s = true ->
+  Jid.split_first c (ClientConfig.bytes_of s) =
+  match Jid.split_first c s with
+  | Some (a, b) => Some (ClientConfig.bytes_of a, ClientConfig.bytes_of b)
+  | None => None
+  end.
+Proof. exact ClientConfigP.split_first_bytes. Qed.
+
+(* non-trivial instance: "\xC3\x9Cs.Er\xFF@d.e/r@x/y" (upper case, U+00DC, a stray byte 0xFF
+   in the local part, a resource containing '@' and '/'), secret "p" *)
+Example C14_config_example :
+  let jid := [220; 115; 46; 69; 114; 1114367; 64; 100; 46; 101; 47; 114; 64; 120; 47; 121] in
+  ClientConfig.units_ok jid = true /\
+  ClientConfig.new_client jid [] [112] =
+    Some (ClientConfig.mkParts [195; 156; 115; 46; 69; 114; 255] [100; 46; 101] [114; 64; 120; 47; 121]) /\
+  option_map b64_decode (ClientConfig.config_plain_payload jid [] [112]) =
+    Some (Some [0; 195; 156; 115; 46; 69; 114; 255; 0; 112]).
+Proof. vm_compute. repeat split; reflexivity. Qed.
+
+Print Assumptions C14_config_payload_exact.
+Print Assumptions C14_config_local_is_prefix.
+Print Assumptions C14_config_parts.
+Print Assumptions C14_config_refused_no_payload.
+Print Assumptions C14_config_accepted.
+Print Assumptions C14_config_split_commutes.
